@@ -87,6 +87,9 @@ func (a *AuthIp) watchYml() error {
 					switch {
 					case ev.Op&fsnotify.Write == fsnotify.Write:
 						fallthrough
+					case ev.Op&fsnotify.Create == fsnotify.Create:
+						// a file moved over the whitelist (write to a temp file, then rename) shows up as Create
+						fallthrough
 					case ev.Op&fsnotify.Rename == fsnotify.Rename:
 						if err := a.parseAuthIp(); err != nil {
 							logging.Errorf("parser auth ip err: %s", err)
